@@ -687,3 +687,14 @@ func Base85Group(digits [5]byte) [4]byte {
 	}
 	return [4]byte{byte(v >> 24), byte(v >> 16), byte(v >> 8), byte(v)}
 }
+
+// ReadsCMapByLines violates R7.11.
+func ReadsCMapByLines(section string) int {
+	n := 0
+	for _, line := range strings.Split(section, "\n") {
+		if strings.Contains(line, "<") {
+			n++
+		}
+	}
+	return n
+}
